@@ -22,6 +22,29 @@ UNITS = {
             "pub fn decode_varint(buf: &[u8]) -> Result<(u64, usize)>",
         ],
     },
+    "key": {
+        "src": "src/encoding/key.rs",
+        "anchors": [
+            "pub fn encode_null<B: KeyBuffer>(buf: &mut B)",
+            "pub fn encode_bool<B: KeyBuffer>(b: bool, buf: &mut B)",
+            "pub fn encode_int<B: KeyBuffer>(n: i64, buf: &mut B)",
+            "pub fn encode_float<B: KeyBuffer>(f: f64, buf: &mut B)",
+            "pub fn encode_text<B: KeyBuffer>(s: &str, buf: &mut B)",
+            "pub fn encode_blob<B: KeyBuffer>(data: &[u8], buf: &mut B)",
+            "pub fn encode_date<B: KeyBuffer>(days: i32, buf: &mut B)",
+            "pub fn encode_timestamp<B: KeyBuffer>(micros: i64, buf: &mut B)",
+            "pub fn encode_uuid<B: KeyBuffer>(uuid: &[u8; 16], buf: &mut B)",
+            "pub fn encode_time<B: KeyBuffer>(micros: i64, buf: &mut B)",
+            "pub fn encode_timestamptz<B: KeyBuffer>(micros: i64, tz_offset_mins: i16, buf: &mut B)",
+            "pub fn encode_interval<B: KeyBuffer>(months: i32, days: i32, micros: i64, buf: &mut B)",
+            "pub fn encode_macaddr<B: KeyBuffer>(addr: &[u8; 6], buf: &mut B)",
+            "pub fn encode_enum<B: KeyBuffer>(type_id: u32, ordinal: u32, buf: &mut B)",
+            "fn encode_escaped_bytes<B: KeyBuffer>(data: &[u8], buf: &mut B)",
+            "pub fn encode_value<B: KeyBuffer>(value: &Value, buf: &mut B)",
+            "pub fn decode_key(data: &[u8]) -> Result<(DecodedKey, usize)>",
+            "fn decode_escaped_bytes(data: &[u8]) -> Result<(Vec<u8>, usize)>",
+        ],
+    },
 }
 
 PROPS = {
@@ -34,5 +57,13 @@ PROPS = {
         "n_obligations": {"quick": 4, "thorough": 4},
         "explanation": "Full-domain Hoare triples on the real varint_len/encode_varint/decode_varint: all 2^64 values, all byte strings (10 symbolic bytes + symbolic length is complete because the decoder never indexes past byte 8).",
         "trusted": ["u64::from_be_bytes / copy_from_slice / try_into as compiled by Kani (their MIR is executed, not assumed)"],
+    },
+    "C26": {
+        "level": "proof",
+        "level_text": "Proof for all inputs of the fixed-width encoders (all pairs of i64, of f64 bit patterns, dates, times, timestamps, timestamptz, intervals, uuids, macaddrs, enums, bools): key order == value order, injectivity, decode(encode(x) ++ anything) == x, documented prefix ranking across types, shared ZERO key as the only int/float collision. TEXT/BLOB escape codec: bounded Kani twin (len<=3) in this unit; unbounded Verus proof is a separate unit.",
+        "level_note": "Trusted: Kani/CBMC; the Vec/SmallVec impls of KeyBuffer (harness supplies a fixed-array KeyBuffer to the real generic encoders); Rust slice Ord as the meaning of bytewise comparison. Nested array/tuple/range/json encoders are not covered.",
+        "technique": "Kani full-domain Hoare triples on the real generic encoders/decoder + Verus loop-invariant proof of the escape codec on mechanically extracted functions",
+        "kani_units": ["key"],
+        "explanation": "",
     },
 }
